@@ -227,15 +227,21 @@ def k3(rep, F):
                                     "mark_consumed inserts something other than the given index", b["file"], n.get("ln")))
         if name == "get_next_available":
             # the filter must test membership of the element's own stamp, negated
+            # (that the consumed set is consulted at all is checked here; with which polarity, and that the first
+            # free occurrence is taken, is part of the accept condition compared by U6/tokeniser)
             ok = False
             for n in walk(b["body"]):
+                if n.get("k") == "mcall" and n.get("m") == "contains" and "HashSet" in (n.get("rt") or n.get("f") or ""):
+                    ok = True
                 if n.get("k") == "un" and n.get("op") == "!" and isinstance(n.get("e"), dict) and \
                         n["e"].get("k") == "mcall" and n["e"].get("m") == "contains":
                     ok = True
             if not ok:
                 rep.add(Finding("K3", b["path"], "filter", "get_next_available does not skip consumed positions "
                                 "by `!set.contains(pos)`", b["file"], b["line"]))
-            if not any(n.get("k") == "mcall" and n.get("m") == "find" for n in walk(b["body"])):
+            first_ = any(n.get("k") == "mcall" and n.get("m") in ("find", "find_map") for n in walk(b["body"])) or \
+                any(n.get("k") == "for" and any(x.get("k") == "ret" for x in walk(n["body"])) for n in walk(b["body"]))
+            if not first_:
                 rep.add(Finding("K3", b["path"], "first", "get_next_available does not take the first unconsumed "
                                 "occurrence in order", b["file"], b["line"]))
     return r
